@@ -156,12 +156,46 @@ contract("BaseProject.initialize", props=["C08", "C09", "C15"], types={"state_in
 
 # ------------------------------------------------------------------------------------------------ assumed callee contracts
 # (their own verification is a separate work item: bounded stand-in for __allocate, C13 for the placement functions)
+define("alloc_wf(p)",
+       "p.workflow is not None and p.organization is not None"
+       " and forall(p.workflow.task_list, lambda t: t is not None and t.parent_workflow is not None and forall(t.allocated_workplace_list, lambda wp: wp is not None)"
+       "     and implies(t.need_facility, t.target_component is not None))"          # WF.facility
+       # WF.acyclic for the product structure: a rank strictly increasing from parent to child; children are distinct
+       " and forall_obj('BaseComponent', lambda c: forall(c.child_component_list, lambda x: ghost_int('crank', c) < ghost_int('crank', x)) and distinct_list(c.child_component_list))"
+       " and forall_obj('BaseComponent', lambda c: forall(c.child_component_list, lambda x: x is not None) and forall(c.parent_component_list, lambda x: x is not None)"
+       "     and forall(c.targeted_task_list, lambda x: x is not None))"
+       " and forall_obj('BaseWorkplace', lambda wp: forall(wp.facility_list, lambda f: f is not None) and forall(wp.placed_component_list, lambda c: c is not None)"
+       "     and forall(wp.input_workplace_list, lambda x: x is not None))"
+       " and forall(p.organization.team_list, lambda tm: tm is not None and forall(tm.worker_list, lambda w: w is not None))"
+       " and forall(p.organization.workplace_list, lambda wp: wp is not None)"
+       # WF.ids
+       " and forall(p.organization.team_list, lambda tm: forall(tm.worker_list, lambda w: exists(p.organization.team_list, lambda t2: t2.ID == w.team_id)))"
+       " and forall_obj('BaseFacility', lambda f: exists(p.organization.workplace_list, lambda w2: w2.ID == f.workplace_id))"
+       " and forall_int(0, len(p.organization.team_list), lambda a: forall_int(0, len(p.organization.team_list), lambda b: implies(a != b, p.organization.team_list[a].ID != p.organization.team_list[b].ID)))"
+       " and forall_int(0, len(p.organization.workplace_list), lambda a: forall_int(0, len(p.organization.workplace_list), lambda b: implies(a != b, p.organization.workplace_list[a].ID != p.organization.workplace_list[b].ID)))"
+       # phase A has just run: a FREE resource holds nothing
+       " and forall_obj('BaseWorker', lambda w: implies(w.state == BaseWorkerState.FREE, len(w.assigned_task_list) == 0))"
+       " and forall_obj('BaseFacility', lambda f: implies(f.state == BaseFacilityState.FREE, len(f.assigned_task_list) == 0))"
+       # C13(a): a workplace lists a component exactly when the component reports being placed there, children with their parent
+       " and forall_obj('BaseWorkplace', lambda wp: forall(wp.placed_component_list, lambda c: c.placed_workplace is wp))"
+       " and forall_obj('BaseComponent', lambda c: implies(c.placed_workplace is not None, c in c.placed_workplace.placed_component_list)"
+       "     and forall(c.child_component_list, lambda ch: implies(c.placed_workplace is not None, ch.placed_workplace is c.placed_workplace)))")
+
 contract("BaseProject.__allocate", props=["C03", "C04", "C06", "C11", "C13"],
          types={"task_priority_rule": "Enum(TaskPriorityRuleMode)"},
          requires=["self.workflow is not None and self.organization is not None",
                    "holds_exclusively(self.workflow)"],
+         bounded_requires=["alloc_wf(self)"],
          ensures=[("bounded:consistency-preserved", "holds_exclusively(self.workflow)"),
-                  ("bounded:placed-components-not-none", "forall_obj('BaseWorkplace', lambda p: forall(p.placed_component_list, lambda c: c is not None))")],
+                  ("bounded:placed-components-not-none", "forall_obj('BaseWorkplace', lambda p: forall(p.placed_component_list, lambda c: c is not None))"),
+                  # C03(c): only READY or WORKING tasks receive resources
+                  ("bounded:only-active-tasks-receive-resources", "forall(self.workflow.task_list, lambda t:"
+                       " implies(len(t.allocated_worker_list) != old(len(t.allocated_worker_list)), t.state == BaseTaskState.READY or t.state == BaseTaskState.WORKING))"),
+                  # C04: a newly allocated worker was FREE (hence present), skilled for the task, and its team targets the task
+                  ("bounded:new-workers-eligible", "(forall(self.workflow.task_list, lambda t: forall(t.allocated_worker_list, lambda w:"
+                       " exists(old(t.allocated_worker_list), lambda w0: w0 is w) or (old(w.state) == BaseWorkerState.FREE and has_skill(w, t.name)"
+                       " and exists(self.organization.team_list, lambda tm: tm.ID == w.team_id and t in tm.targeted_task_list)))))"),
+                  ("task-states-untouched", "unchanged('BaseTask.state')")],
          modifies=["BaseTask.allocated_worker_list", "BaseTask.allocated_facility_list", "BaseWorker.assigned_task_list",
                    "BaseFacility.assigned_task_list", "BaseComponent.placed_workplace", "BaseWorkplace.placed_component_list"])
 contract("BaseProduct.check_removing_placed_workplace", props=["C13"],
